@@ -60,13 +60,25 @@ func partition(line, delim string) (string, string) {
 
 }
 
+// readLine returns the next line. A last line that lacks its newline is
+// still a line; io.EOF is only returned when there is nothing left at all.
+func readLine(reader *bufio.Reader) (string, error) {
+	line, err := reader.ReadString('\n')
+	if err == io.EOF && line != "" {
+		return line + "\n", nil
+	}
+	return line, err
+}
+
 func ParseOne(reader *bufio.Reader) (*ChangelogEntry, error) {
 	changeLog := ChangelogEntry{}
 
 	var header string
 	for {
-		line, err := reader.ReadString('\n')
+		line, err := readLine(reader)
 		if err != nil {
+			/* Running out of input between entries is the one clean
+			 * way for a changelog to end, and is reported as io.EOF. */
 			return nil, err
 		}
 		if line == "\n" {
@@ -110,7 +122,12 @@ func ParseOne(reader *bufio.Reader) (*ChangelogEntry, error) {
 	var signoff string
 	/* OK, we've got the header. Let's zip down. */
 	for {
-		line, err := reader.ReadString('\n')
+		line, err := readLine(reader)
+		if err == io.EOF {
+			/* The entry has started, so this is not the end of the
+			 * changelog but a truncated entry. */
+			return nil, io.ErrUnexpectedEOF
+		}
 		if err != nil {
 			return nil, err
 		}
